@@ -95,7 +95,7 @@ def run(ctx: Ctx) -> None:
     acc = _Acc(ctx)
     names = list(H.LIMIT_CONFIGS)
     pairs = not ctx.quick
-    n_valid = ctx.pick(36, 100)
+    n_valid = ctx.pick(30, 100)
     per_class = ctx.pick(2, 5)
     # ---- 2. requests
     k = 0
@@ -153,7 +153,7 @@ def run(ctx: Ctx) -> None:
     # ---- 5. content-coded bodies with auto-decompression on (gzip, zlib / raw deflate, br, zstd when importable):
     #         the decoded body must be the plain text and must not depend on the segmentation
     for mode in ("request", "response"):
-        for i in range(ctx.pick(60, 500)):
+        for i in range(ctx.pick(45, 500)):
             msgs, plain, label = G.gen_coded_stream(rng, mode)
             data = G.render(G.flatten(msgs))
             lim = H.LIMIT_CONFIGS["tiny-read-buffer"] if i % 3 == 2 else H.DEFAULT_LIMITS
